@@ -9,14 +9,39 @@ _spec.loader.exec_module(_c19)
 RULE = ('triangle/polyline: search p_translate (draw / pixels() / points() / contains() / bounding boxes of x.translate(d) = shifted ones of x, '
         'translate_mut = translate, polyline moved by vertices = translate field) on styled triangles and polylines with stroke widths 0..=12, '
         '3 alignments: ALL vertex triples (up to order) of a 4x4 grid x 6 styles x 3 offsets, random ones up to +-30 with offsets up to +-2000, '
-        'and the regression inputs of the repaired rounding defect.')
-PARTIAL = ['thick strokes (width >= 1 for triangles, >= 2 for polylines): joins / thick segments / scanline merging not modelled here '
-           '(join arithmetic: Properties/C07_join.v): search only']
+        'and the regression inputs of the repaired rounding defect; correspondence of the models the theorems cite (tri_points, tri_bbox, '
+        'tri_contains_map, tri_styled_w0, poly_points, poly_points_tt, poly_bbox, poly_styled_thin) at a position and at its translate.')
+PARTIAL = ['thick strokes (width >= 1 for triangles, >= 2 for polylines) are not in this part: Properties/C07_join.v, C07_join_range.v (pipeline model) and the search p_translate']
 TRUSTED = []
 ASSUMPTIONS = ['triangle coordinates within +-8192 before and after the translation (tri_ok)']
 
 STYLES = ['S 1 0 0 1', 'S 0 1 1 1', 'S 1 1 2 0', 'S 0 1 3 1', 'S 1 1 4 2', 'S 0 1 5 0']
 OFFS = [(13, -11), (-7, -9), (1000, 3)]
+
+
+def cases(tier, rng):
+    """ties of the models the C07_tri theorems cite (so that `./check C07` alone corresponds them), each at a position and at its
+    translate: Triangle::points() / contains() / bounding_box(), the styled fill, Polyline::points() / bounding_box() with the
+    translate field (once and twice), the thin styled polyline"""
+    n = 400 if tier == 'quick' else 6000
+    for t in list(_c19.grid_multisets(4)) + [_c19.rnd_tri(rng) for _ in range(n)]:
+        d = rng.choice(OFFS + [(rng.randrange(-40, 41), rng.randrange(-40, 41))])
+        for tt in (t, tuple(c + d[i % 2] for i, c in enumerate(t))):
+            yield J('tri_points', *tt)
+            yield J('tri_bbox', *tt)
+            yield J('tri_contains_map', *tt, 1)
+            yield J('tri_styled_w0', *tt, 1, 0, 1)
+    for _ in range(n):
+        vs = _c19.rnd_poly(rng)
+        tr = (rng.randrange(-20, 21), rng.randrange(-20, 21))
+        d = (rng.randrange(-40, 41), rng.randrange(-40, 41))
+        yield J('poly_points', *tr, *_c19.flat(vs))
+        yield J('poly_points_tt', *d, *tr, *_c19.flat(vs))
+        yield J('poly_points', 0, 0, *_c19.flat([(x + tr[0] + d[0], y + tr[1] + d[1]) for x, y in vs]))
+        yield J('poly_bbox', *tr, *_c19.flat(vs))
+        yield J('poly_bbox', tr[0] + d[0], tr[1] + d[1], *_c19.flat(vs))
+        yield J('poly_styled_thin', *tr, 1, 1, len(vs), *_c19.flat(vs))
+        yield J('poly_styled_thin', tr[0] + d[0], tr[1] + d[1], 1, 1, len(vs), *_c19.flat(vs))
 
 
 def search(tier, rng):
